@@ -229,7 +229,8 @@ async function invoke(f, nested, entrypointByObject) {
     if (f.kind === 'imperative' || f.kind === 'pointer') {
       const w = f.entryIndex != null ? nested[f.entryIndex] : null;
       rec.allowedVariables = w ? w.allowedVariables : null;
-      for (const k of (w ? w.allowedVariables : [])) args[k] = 'arg:' + k;
+      const shapes = (job.refetchArgs || {})[f.name] || {};
+      for (const k of (w ? w.allowedVariables : [])) args[k] = (k in shapes) ? structuredClone(shapes[k]) : 'arg:' + k;
     } else {
       args = { ...(job.loadableArgs || {}) };
     }
